@@ -405,6 +405,7 @@ func (fv *FV) storeField(st *State, base Term, name string, v Term, y *ast.Selec
 		fv.fail(y.Pos(), "field assignment through non-pointer %s", fv.src(y))
 	}
 	fv.safety(st, "nil["+fv.src(y)+"]", not(eq(base.S, "0")), "nil dereference: "+fv.src(y), y.Pos())
+	fv.guardCheck(st, base, name, fv.src(y), y.Pos())
 	named, sty := structOf(pt.Elem())
 	f := findField(sty, name)
 	key, _ := fv.fieldComp(named, f)
@@ -892,7 +893,9 @@ func (fv *FV) execFor(st *State, x *ast.ForStmt, label string) *State {
 			fv.oblige(end, fmt.Sprintf("loop%d.decreases", ord), and(app("<", v1, variant0), app(">=", variant0, "0")), "loop variant decreases and is bounded below: "+ls.DecSrc, nil, x.Pos())
 		}
 	}
-	return fv.merge(append([]*State{exit}, lc.breaks...)...)
+	after := fv.merge(append([]*State{exit}, lc.breaks...)...)
+	fv.ghostAt(after, fmt.Sprintf("loop %d exit", ord), x.Pos())
+	return after
 }
 
 // loopHead checks the invariants on entry, havocs what the loop may change and assumes the invariants.
@@ -1053,7 +1056,9 @@ func (fv *FV) execRange(st *State, x *ast.RangeStmt, label string) *State {
 	if exit != nil {
 		exit.ghost[itName] = it
 	}
-	return fv.merge(append([]*State{exit}, lc.breaks...)...)
+	after := fv.merge(append([]*State{exit}, lc.breaks...)...)
+	fv.ghostAt(after, fmt.Sprintf("loop %d exit", ord), x.Pos())
+	return after
 }
 
 // effects computes, syntactically, what a loop body may change.
@@ -1260,6 +1265,7 @@ func (fv *FV) callEffects(eff *loopEffects, c *ast.CallExpr) {
 		names := map[string]ast.Expr{}
 		if recvExpr != nil && osig.Recv() != nil {
 			names[osig.Recv().Name()] = recvExpr
+			names["self"] = recvExpr
 		}
 		for i := 0; i < osig.Params().Len() && i < len(c.Args); i++ {
 			names[osig.Params().At(i).Name()] = c.Args[i]
@@ -1461,7 +1467,11 @@ func (fv *FV) applyEffects(pre, head *State, eff *loopEffects) {
 			}
 		}
 		// fields read by the modifies expression must not be written in the loop
-		for _, fn := range specFieldNames(ct.t.mod) {
+		pathExpr := ct.t.mod
+		if sf, ok := pathExpr.(*SField); ok {
+			pathExpr = sf.X // the modified field itself is not read to find the location
+		}
+		for _, fn := range specFieldNames(pathExpr) {
 			for k := range eff.comps {
 				if strings.HasPrefix(k, "F:") && strings.HasSuffix(strings.SplitN(k, "$", 2)[0], "."+fn) {
 					inv = false
